@@ -154,6 +154,15 @@ register("C05",
          "Trusted: Coq kernel; Model/Rewriter.v hand-written (tied by differential testing); sqlglot parser/printer; the harness's SQL printer for the renderings; DuckDB. No axioms.",
          "Coq proof (induction over projection and filter lists) over a hand-written model of the extraction + model/implementation correspondence; SQL-vs-structured execution oracle", "DESIGN.md section 6/C05")
 
+register("C11",
+         "Machine-checked Coq: C11_field_roundtrip -- for a field-by-field exporter / parser pair given as TABLES, a field that passes the decidable criterion `field_ok` survives export -> parse for EVERY object (up to the identification of falsy values "
+         "the guards rely on; exact for fields such as fill_nulls_with); C11_native_tables -- the generated obligation: in the tables of adapters/sidemantic.py (export, _export_model, _export_metric, _export_parameter, _parse_model, _parse_metric, _parse_parameter), "
+         "REGENERATED from the source on every run, every result-affecting field of models, relationships, dimensions, metrics, segments, pre-aggregations, parameters and graph-level metrics passes it. "
+         "The tables are tied to the code by a fail-closed AST translator (validated against the keys the real exporter writes); generated graphs over the field vocabulary are sent through to_yaml -> from_yaml and the result-affecting fields, "
+         "the compiled SQL of a 15-query battery and the routing must be unchanged. Partial: the agreement of the Python / YAML / SQL-definition syntaxes is executed on one fixed definition (the SQL-definition tokenizer is sqlglot's).",
+         "Trusted: Coq kernel; translator/gen_native.py; the hand-written list Model/Native.result_fields of what counts as result-affecting; PyYAML. No axioms.",
+         "Coq proof over a generic table model + obligation on translator-regenerated tables; executed YAML round trip with model_dump / SQL / routing comparison", "DESIGN.md section 6/C11")
+
 PENDING = "check not built yet in this revision (see DESIGN.md section 10 build order)"
 
 
